@@ -54,6 +54,13 @@ func (ex *Exec) vrtCall(fn *ssa.Function, args []Value, g *Term, where string) V
 	case "Enum":
 		name := ex.label(T(0))
 		lo, hi := constInt(args[1], "Enum lo"), constInt(args[2], "Enum hi")
+		if fv, ok := ex.fixed[name]; ok {
+			if fv < lo || fv > hi {
+				unsupported("cube value %d outside Enum range of %s", fv, name)
+			}
+			ex.nondets = append(ex.nondets, NondetRec{Label: name, Kind: "fixed", Fixed: fv})
+			return BV(fv)
+		}
 		v, cs := ex.enumVar(name, lo, hi)
 		ex.nondets = append(ex.nondets, NondetRec{Label: name, Kind: "enum", Var: v})
 		return cs
@@ -93,6 +100,13 @@ func (ex *Exec) vrtCall(fn *ssa.Function, args []Value, g *Term, where string) V
 		name := ex.label(T(0))
 		opts := args[1].(*SliceVal)
 		n := constInt(opts.Len, "Pick option count")
+		if fv, ok := ex.fixed[name]; ok {
+			if fv < 0 || fv >= n {
+				unsupported("cube value %d outside Pick range of %s", fv, name)
+			}
+			ex.nondets = append(ex.nondets, NondetRec{Label: name, Kind: "fixed", Fixed: fv})
+			return opts.Elems[fv].(*Term)
+		}
 		v, _ := ex.enumVar(name, 0, n-1)
 		var cs []Case
 		var names []string
